@@ -52,7 +52,7 @@ class RealProcWorld(PfWorld):
         for k, v in r['faults'].items():
             self.res.fault(k, v)
         p = Proc(spec)
-        for k in ('writes_done', 'writes', 'processed', 'killed', 'exit', 'stdout', 'killed_at_exit'):
+        for k in ('writes_done', 'writes', 'processed', 'killed', 'exit', 'stdout', 'killed_at_exit', 'failed_pages'):
             setattr(p, k, r[k])
         p.exc_text = r.get('exc_text', '')
         p.stderr = ''
@@ -92,7 +92,7 @@ def child(job_path, result_path):
     out = {'events': events, 'clock': {'now': w.clock.now, 'reads': w.clock.reads},
            'probes': res.probes, 'faults': res.faults, 'writes_done': p.writes_done, 'writes': p.writes,
            'processed': p.processed, 'killed': p.killed, 'exit': p.exit, 'stdout': p.stdout[-2000:],
-           'killed_at_exit': p.killed_at_exit, 'exc_text': getattr(p, 'exc_text', '')}
+           'killed_at_exit': p.killed_at_exit, 'exc_text': getattr(p, 'exc_text', ''), 'failed_pages': p.failed_pages}
     with open(result_path, 'w') as f:
         json.dump(out, f, default=str)
         f.flush()
